@@ -317,51 +317,87 @@ fn try_prog(prog: &Program, base_seed: u64, prop: &str, clause: &str, tries: u64
     None
 }
 
-fn shrink_candidates(p: &Program) -> Vec<Program> {
+/// one way of making a program smaller (a descriptor: the scale families' programs have a hundred
+/// thousand operations, so candidates are built one at a time)
+enum Cand {
+    DropThread(usize),
+    DropOps(usize, usize, usize),
+    SimplifyAct(ActId),
+    PlainSched,
+    NoBuggify,
+}
+
+fn apply_cand(p: &Program, c: &Cand) -> Program {
+    let mut q = p.clone();
+    match c {
+        Cand::DropThread(t) => {
+            q.threads[*t].clear();
+            for ops in q.threads.iter_mut() {
+                ops.retain(|o| !matches!(o, Op::Start { thread } | Op::Join { thread } if *thread == *t));
+            }
+        }
+        Cand::DropOps(t, i, j) => {
+            let mut k = 0;
+            q.threads[*t].retain(|o| {
+                let inside = k >= *i && k < *j;
+                k += 1;
+                !inside || matches!(o, Op::Build { .. })
+            });
+        }
+        Cand::SimplifyAct(a) => {
+            q.acts.insert(*a, ActScript::default());
+        }
+        Cand::PlainSched => q.knobs.sched = Sched::Sticky(900),
+        Cand::NoBuggify => {
+            q.knobs.spurious_wake_pm = 0;
+            q.knobs.weak_cas_pm = 0;
+            q.knobs.spawn_fail_pm = 0;
+        }
+    }
+    q
+}
+
+fn shrink_candidates(p: &Program) -> Vec<Cand> {
     let mut v = vec![];
     // drop a whole client thread
     for t in (1..p.threads.len()).rev() {
-        if p.threads[t].is_empty() {
-            continue;
+        if !p.threads[t].is_empty() {
+            v.push(Cand::DropThread(t));
         }
-        let mut q = p.clone();
-        q.threads[t].clear();
-        for ops in q.threads.iter_mut() {
-            ops.retain(|o| !matches!(o, Op::Start { thread } | Op::Join { thread } if *thread == t));
+    }
+    // drop a run of operations of a long thread: halves, quarters, ... (delta debugging)
+    for t in 0..p.threads.len() {
+        let n = p.threads[t].len();
+        let mut chunk = n / 2;
+        while n > 16 && chunk >= 2 {
+            let mut i = 0;
+            while i < n {
+                v.push(Cand::DropOps(t, i, (i + chunk).min(n)));
+                i += chunk;
+            }
+            chunk /= 2;
         }
-        v.push(q);
     }
     // drop one operation
     for t in 0..p.threads.len() {
         for i in (0..p.threads[t].len()).rev() {
-            if matches!(p.threads[t][i], Op::Build { .. }) {
-                continue;
+            if !matches!(p.threads[t][i], Op::Build { .. }) {
+                v.push(Cand::DropOps(t, i, i + 1));
             }
-            let mut q = p.clone();
-            q.threads[t].remove(i);
-            v.push(q);
         }
     }
     // simplify one action's script
     for (a, sc) in &p.acts {
         if *sc != ActScript::default() {
-            let mut q = p.clone();
-            q.acts.insert(*a, ActScript::default());
-            v.push(q);
+            v.push(Cand::SimplifyAct(*a));
         }
     }
     // simpler knobs
     if p.knobs.sched != Sched::Sticky(900) {
-        let mut q = p.clone();
-        q.knobs.sched = Sched::Sticky(900);
-        v.push(q);
+        v.push(Cand::PlainSched);
     }
     if p.knobs.spurious_wake_pm != 0 || p.knobs.weak_cas_pm != 0 || p.knobs.spawn_fail_pm != 0 {
-        let mut q = p.clone();
-        q.knobs.spurious_wake_pm = 0;
-        q.knobs.weak_cas_pm = 0;
-        q.knobs.spawn_fail_pm = 0;
-        v.push(q);
+        v.push(Cand::NoBuggify);
     }
     v
 }
@@ -382,6 +418,19 @@ fn shows_in_fresh_worker(prop_checked: &str, tier: &str, batch_seed: u64, run_in
         Ok(st) => st.violations.iter().any(|x| x.prop == prop && x.clause == clause),
         Err(_) => false,
     }
+}
+
+/// the history as text for the replay file (for reading; the replay compares the event hash): all of
+/// it, or the beginning and the end of a very long one
+fn history_text(rec: &RunRecord) -> Vec<String> {
+    let line = |e: &crate::world::Ev| format!("t{} {:?}", e.tid, e.k);
+    if rec.ev.len() <= 4_000 {
+        return rec.ev.iter().map(line).collect();
+    }
+    let mut v: Vec<String> = rec.ev[..1_000].iter().map(line).collect();
+    v.push(format!("... {} events left out ...", rec.ev.len() - 2_500));
+    v.extend(rec.ev[rec.ev.len() - 1_500..].iter().map(line));
+    v
 }
 
 pub fn minimise_and_persist(a: &CheckArgs, v: &VioRec) -> String {
@@ -427,16 +476,19 @@ pub fn minimise_and_persist(a: &CheckArgs, v: &VioRec) -> String {
     let orig_hash = best_rec.history_hash();
     let orig_switches = best_rec.out.context_switches;
     let orig_detail = find_vio(&best_rec, prop, clause).map(|x| x.detail).unwrap_or_default();
-    let orig_excerpt: Vec<String> = best_rec.ev.iter().map(|e| format!("t{} {:?}", e.tid, e.k)).collect();
+    let orig_excerpt: Vec<String> = history_text(&best_rec);
     // 1. program shrinking
     let mut progress = true;
     while progress && t0.elapsed().as_secs() < 40 && leak_budget_left() {
         progress = false;
-        for cand in shrink_candidates(&best) {
+        // a long program is expensive to run: fewer seeds per candidate
+        let big = best.threads.iter().map(|t| t.len()).sum::<usize>() > 2_000;
+        for c in shrink_candidates(&best) {
             if t0.elapsed().as_secs() >= 40 || !leak_budget_left() {
                 break;
             }
-            if let Some((seed, rec)) = try_prog(&cand, best_seed, prop, clause, 24) {
+            let cand = apply_cand(&best, &c);
+            if let Some((seed, rec)) = try_prog(&cand, best_seed, prop, clause, if big { 2 } else { 24 }) {
                 best = cand;
                 best_seed = seed;
                 best_rec = rec;
@@ -486,7 +538,7 @@ pub fn minimise_and_persist(a: &CheckArgs, v: &VioRec) -> String {
     };
     let vio = find_vio(&rec, prop, clause);
     let switches = rec.out.context_switches;
-    let excerpt: Vec<String> = rec.ev.iter().map(|e| format!("t{} {:?}", e.tid, e.k)).collect();
+    let excerpt: Vec<String> = history_text(&rec);
     let file = serde_json::json!({
         "property": prop_checked,
         "finding": v.known,
